@@ -365,6 +365,18 @@ func buildShape(shape, P string, companions model) []commitSpec {
 			{m: with(b, P, "v2"), parents: []int{0}, signer: "S"},
 			{m: with(b, P, "v2"), parents: []int{1, 2}, signer: "P0"},
 		}
+	case "merge-revert":
+		// the branch is at commit 1 (P changed by the authorized principal);
+		// the commit under test is a merge whose FIRST parent is the old
+		// commit 0 and whose LAST parent is the branch tip, with commit 0's
+		// tree: it reverts P relative to the branch although it equals one of
+		// its parents. e2e records commit 1 first, then the merge.
+		b := with(base, P, "v0")
+		return []commitSpec{
+			{m: b, signer: "P0"},
+			{m: with(b, P, "v2"), parents: []int{0}, signer: "P0"},
+			{m: b, parents: []int{0, 1}, signer: "S"},
+		}
 	case "merge-first":
 		// merge commit whose tree equals its first parent only
 		b := with(base, P, "v0")
@@ -966,7 +978,9 @@ func (x *runner) e2eOne(c Case, signer *keys.Key, pusher *keys.Key) (verr error,
 			panic(harnessErr{err})
 		}
 	}
-	if len(specs) > 1 {
+	if c.Shape == "merge-revert" {
+		rec(ids[1], p0) // the branch already holds the authorized change
+	} else if len(specs) > 1 {
 		rec(ids[0], p0) // base, by the authorized principal
 	}
 	rec(ids[len(ids)-1], pusher)
@@ -1110,6 +1124,9 @@ func e2eCases(thorough bool) []Case {
 		for i, c := range alphabet {
 			n := []string{c.Name}
 			// every component: literal rule on the file itself, src/* rule on the name below src/
+			if c.Class == "plain" || i == 1 {
+				mk(n, "file", "merge-revert", "literal", "primary", "P1")
+			}
 			mk(n, "file", "modify", "literal", "primary", "P1")
 			mk(n, "sub", "add", "srcstar", "primary", "P1")
 			// rotate the remaining dimensions over the alphabet; the plain
@@ -1140,7 +1157,7 @@ func e2eCases(thorough bool) []Case {
 	for _, c := range comps {
 		n := []string{c.Name}
 		for _, pp := range [][2]string{{"file", "literal"}, {"file", "star"}, {"dir", "literal"}, {"deep", "literal"}, {"sub", "srcstar"}, {"sub", "literal"}} {
-			for _, sh := range []string{"root", "add", "modify", "delete", "hidden", "merge-neither", "merge-side", "merge-last"} {
+			for _, sh := range []string{"root", "add", "modify", "delete", "hidden", "merge-neither", "merge-side", "merge-last", "merge-revert"} {
 				for _, pol := range []string{"primary", "delegated"} {
 					if pol == "delegated" && (sh == "root" || sh == "delete" || sh == "merge-last") {
 						continue
@@ -1182,7 +1199,7 @@ func TestC10(t *testing.T) {
 		}
 	}()
 
-	col.Rule("reader cases: every path component of the alphabet x placement {file c, dir c/in, deep c/c/c, sub src/c; thorough also ordered pairs c1/c2 and c1/c2/in} x tree context {alone, with companions sorting before and after} x commit shape {root, add, modify, delete, merge != both parents, merge == last parent; thorough also merge taking the second parent's change, merge == first parent, change below the tip}; per case GetFilePathsChangedByCommit, GetAllFilesInTree, GetEntriesInTree (root and every subtree) and WriteTree are judged against NUL-delimited plumbing. e2e cases: component x placement x rule pattern {fnmatch-escaped literal, file:src/*, file:*} x commit shape x policy shape {file rule in primary rule file, only in a delegated rule file} x unauthorized signer {other principal, unsigned}; each is verified twice (varied commit signed by unauthorized key / by the authorized principal). A class is (character class of the component(s), placement, shape, position, outcome).")
+	col.Rule("reader cases: every path component of the alphabet x placement {file c, dir c/in, deep c/c/c, sub src/c; thorough also ordered pairs c1/c2 and c1/c2/in} x tree context {alone, with companions sorting before and after} x commit shape {root, add, modify, delete, merge != both parents, merge == last parent; thorough also merge taking the second parent's change, merge == first parent, change below the tip}; per case GetFilePathsChangedByCommit, GetAllFilesInTree, GetEntriesInTree (root and every subtree) and WriteTree are judged against NUL-delimited plumbing. e2e cases: component x placement x rule pattern {fnmatch-escaped literal, file:src/*, file:*} x commit shape (e2e also: a merge that reverts the protected path relative to the branch tip, its last parent, while its tree equals its first parent, an old commit) x policy shape {file rule in primary rule file, only in a delegated rule file} x unauthorized signer {other principal, unsigned}; each is verified twice (varied commit signed by unauthorized key / by the authorized principal). A class is (character class of the component(s), placement, shape, position, outcome).")
 	col.Assume("trees contain regular files (100644) and directories only; symlinks, gitlinks and executable bits are outside the statement")
 	col.Assume("path components contain no '/' or NUL and no newline (the quantifier says newline-free); '.' and '..' are not valid git path components")
 	col.Assume("for merge commits the oracle requires every path that differs from ALL parents and tolerates any path that differs from SOME parent; for root and single-parent commits the changed paths are exact")
